@@ -405,6 +405,23 @@ public:
             j.kv("init", expr(V->getInit()));
             // style: c-init / call-init / list-init irrelevant
         }
+        if (auto* DD = dyn_cast<DecompositionDecl>(V)) {
+            // structured binding: each name is either a member/element of the hidden object (binding expression) or, for
+            // tuple-like types (std::pair, std::tuple), a hidden reference variable initialised with get<I>(object)
+            std::vector<std::string> Bs;
+            for (auto* B : DD->bindings()) {
+                J b;
+                b.str("name", B->getName()).num("id", declId(B));
+                if (auto* HV = B->getHoldingVar()) {
+                    b.num("hold_id", declId(HV));
+                    if (HV->hasInit()) b.kv("e", expr(HV->getInit()));
+                }
+                else if (B->getBinding())
+                    b.kv("e", expr(B->getBinding()));
+                Bs.push_back(b.done());
+            }
+            j.kv("bindings", arr(Bs));
+        }
         j.kv("l", loc(V->getLocation()));
         return j.done();
     }
